@@ -679,7 +679,7 @@ int main(void)
 	while (hp_next(&l)) {
 		if (strcmp(l.tok[0], "scn") != 0 || l.ntok < 3) { printf("bad-op\n"); continue; }
 		snprintf(g_cur_id, sizeof g_cur_id, "%s", l.tok[1]);
-		stream_cfg *cfg = calloc(MAXSTREAM, sizeof *cfg); int ns = 0, bad = 0, dump = 0, pmode = 0, np = 0; unsigned pusec = 300; uint64_t pseed = 1; long wd = 180;
+		stream_cfg *cfg = calloc(MAXSTREAM, sizeof *cfg); int ns = 0, bad = 0, dump = 0, pmode = 0, np = 0; unsigned pusec = 300; uint64_t pseed = 1; long wd = 120;
 		unsigned long long sc[8] = { 0, 1, 0, 3, 2000, 32, 4, 0 }; int use_sched = 0;   // mode seed sticky pct_depth pct_steps p_timeout p_spurious
 #ifdef C08_EVENTS
 		c08_ev_enabled = 0;
